@@ -14,8 +14,8 @@ pub static DEF: PropDef = PropDef {
     rule: "cases: a raw DEFLATE stream S (real compressors and the independent generator; plaintext 1025 B..40 KiB, \
 band 1025..1100 over-sampled) that decompress_deflate_stream(S, true) accepts on its own (otherwise discarded, counted), \
 wrapped as zlib (4 headers) / gzip (16 optional-field subsets, random field contents, odd XLEN) / ZIP local file with \
-method 8 (name/extra 0..300, data descriptor, central directory) / PNG IDAT run (1..40 chunks, IDAT total > 1024 bytes), \
-between junk that cannot start a signature. Oracle: my own container model finds a DEFLATE/PNG chunk in \
+method 8 (name/extra 0..300, names in ASCII, legacy code pages, multi-byte UTF-8 or arbitrary bytes, data descriptor, central directory) / PNG IDAT run (1..40 chunks, IDAT total > 1024 bytes), \
+between junk that cannot start a signature; the diagnostics level passed to expand_zlib_chunks is 0 for 13 files in 16, else 1, 2 or 9 (a function of the file). Oracle: my own container model finds a DEFLATE/PNG chunk in \
 expand_zlib_chunks(F) whose plaintext equals S's plaintext; on a miss the case is discarded (counted) if another expanded \
 chunk overlaps S, else it is a violation; round trip is asserted as well. Non-trivial = every kept case; distinct = hash of F.",
     assumptions: &[
